@@ -533,7 +533,13 @@ class Interp:
             h = self.externals.get(f.name)
             if h is None or not callable(h):
                 raise Undecided("no transfer function for %s" % f.name)
-            return h(self, args, kwargs, node)
+            try:
+                return h(self, args, kwargs, node)
+            except (PyRaise, Undecided):
+                raise
+            except (TypeError, ValueError, AttributeError, IndexError, KeyError) as ex:
+                # the modelled library call rejects these arguments (e.g. os.path.dirname(None))
+                raise PyRaise(ExcInstance(type(ex).__name__, ["%s: %s" % (f.name, ex)], BUILTIN_EXC.get(type(ex).__name__, ("Exception",))), node)
         if isinstance(f, BoundExt):
             return f.obj.m_method(self, f.name, args, kwargs, node)
         if hasattr(f, "m_call"):
